@@ -5,7 +5,7 @@ import "fmt"
 const dkgPkg = "dkg"
 
 func init() {
-	checkDefs["C11"] = &checkDef{level: "other", pkgs: []string{dkgPkg}, run: func(cr *CheckRun) {
+	checkDefs["C11"] = &checkDef{level: "other", pkgs: []string{dkgPkg, airPkg}, run: func(cr *CheckRun) {
 		opts := defaultOpts()
 		cfgs := [][2]int{{2, 2}, {3, 2}}
 		if cr.Tier == "thorough" {
@@ -25,10 +25,19 @@ func init() {
 			}
 			cr.validateNatively(jobs[1], nil, map[string]int{"dealer1.kind": 0, "dealer2.kind": 3})
 		}
+		// machine level: a signed complaint against a dealer at the master-key step (n=3, t=2)
+		{
+			cj := []Job{{Pkg: airPkg, Fn: "VF_Air_Complaint", Opts: opts, Tag: "complaint in the responses (n=3 t=2)", Case: "complaint", Params: map[string]string{"tag": "c11cmp"}}}
+			runCeremony(cr, cj, nil)
+			if len(cr.fails) == 0 {
+				cr.validateNatively(cj[0], nil, map[string]int{"accused": 0})
+				cr.validateNatively(cj[0], nil, map[string]int{"accused": 1})
+			}
+		}
 		cr.samples = append(cr.samples, map[string]interface{}{"deviation_kinds": []string{"honest", "status-false", "decrypt-fail", "commit-differs", "commit-shorter", "bad-signature", "index-outside", "commit-missing", "commit-empty", "commit-longer"}, "configs": cfgs})
-		cr.explanation = "dc4bc's share of C11: dkg.(*DKG).ProcessDeals/processDealCommits/StoreDeal/StoreCommits/InitDKGInstance executed from SSA; every non-victim participant is a dealer of a chosen kind (honest, inconsistent share, undecryptable deal, deal committing to other coefficients than broadcast, broadcast commitments of wrong length (shorter, longer, empty, never broadcast), bad dealer signature, index outside the list); kyber's verdicts are inputs of the stubs. Obligations: any deviation => ProcessDeals fails (=> the airgapped machine publishes the *_canceled_by_error event; that this cancels the round on every node and that a cancelled round never becomes signing-ready is C05), and success => every deal was consistent. Every kind is additionally executed natively against real kyber (n=2) on each run."
+		cr.explanation = "dc4bc's share of C11: dkg.(*DKG).ProcessDeals/processDealCommits/StoreDeal/StoreCommits/InitDKGInstance executed from SSA; every non-victim participant is a dealer of a chosen kind (honest, inconsistent share, undecryptable deal, deal committing to other coefficients than broadcast, broadcast commitments of wrong length (shorter, longer, empty, never broadcast), bad dealer signature, index outside the list); kyber's verdicts are inputs of the stubs. Obligations: any deviation => ProcessDeals fails (=> the airgapped machine publishes the *_canceled_by_error event; that this cancels the round on every node and that a cancelled round never becomes signing-ready is C05), and success => every deal was consistent. Every kind is additionally executed natively against real kyber (n=2) on each run. Machine level (VF_Air_Complaint, n=3, t=2, kyber DKG contracts): after honest commitments, deals and responses, participant 1's response message carries a validly signed complaint against dealer 0 (or dealer 2); every other machine given that message at the master-key step publishes event_dkg_master_key_confirm_canceled_by_error and stores no keyring; run natively with a really re-signed complaint."
 		cr.bounds["configurations"] = fmt.Sprintf("%v (n,t); every combination of dealer kinds", cfgs)
-		cr.bounds["outside"] = "VSS soundness itself (that kyber's ProcessDeal/DecryptDeal detect what they claim); the airgapped handler around ProcessDeals (ECIES decryption, JSON of deals) and writeErrorRequestToOperation; responses with complaints (ProcessResponses)"
+		cr.bounds["outside"] = "VSS soundness itself (that kyber's ProcessDeal/DecryptDeal detect what they claim); justifications (never exchanged by dc4bc), complaints by more than one participant"
 		cr.assume = append(cr.assume, "kyber contracts of engine/intrin_kyber_dkg.go (NewDistKeyGenerator, ProcessDeal, Verifiers, DecryptDeal, Point.Equal)")
 		cr.trusted = append(cr.trusted, "gosx SSA->SMT executor", "z3 4.8.12", "kyber v1.6.0 contracts (validated natively per run)")
 	}}
